@@ -1,0 +1,135 @@
+// SPDX-License-Identifier: BUSL-1.1
+//
+// Copyright (C) 2025, NASD Inc. All rights reserved.
+// Use of this software is governed by the Business Source License included
+// in the LICENSE file of this repository and at www.mariadb.com/bsl11.
+//
+// ANY USE OF THE LICENSED WORK IN VIOLATION OF THIS LICENSE WILL AUTOMATICALLY
+// TERMINATE YOUR RIGHTS UNDER THIS LICENSE FOR THE CURRENT AND ALL OTHER
+// VERSIONS OF THE LICENSED WORK.
+//
+// THIS LICENSE DOES NOT GRANT YOU ANY RIGHT IN ANY TRADEMARK OR LOGO OF
+// LICENSOR OR ITS AFFILIATES (PROVIDED THAT YOU MAY USE A TRADEMARK OR LOGO OF
+// LICENSOR AS EXPRESSLY REQUIRED BY THIS LICENSE).
+//
+// TO THE EXTENT PERMITTED BY APPLICABLE LAW, THE LICENSED WORK IS PROVIDED ON
+// AN "AS IS" BASIS. LICENSOR HEREBY DISCLAIMS ALL WARRANTIES AND CONDITIONS,
+// EXPRESS OR IMPLIED, INCLUDING (WITHOUT LIMITATION) WARRANTIES OF
+// MERCHANTABILITY, FITNESS FOR A PARTICULAR PURPOSE, NON-INFRINGEMENT, AND
+// TITLE.
+
+package types
+
+import (
+	"context"
+	"errors"
+
+	"cosmossdk.io/collections"
+	"github.com/cosmos/cosmos-sdk/types/query"
+)
+
+// CollectionPaginate is query.CollectionPaginate with the reverse iteration
+// from a key corrected.
+//
+// NOTE: the SDK starts a reverse iteration at the end of the range of the keys that
+// have the requested key as a byte prefix. A key whose last component is a string is
+// encoded without a terminator, hence a key can be the byte prefix of another one
+// (counterparty "1" and "10"): a reverse walk following the next keys is then served
+// the longer key again and again and never reaches the shorter one. Here the
+// iteration starts exactly at the requested key.
+func CollectionPaginate[K, V any, C query.Collection[K, V], T any](
+	ctx context.Context,
+	coll C,
+	pageReq *query.PageRequest,
+	transformFunc func(key K, value V) (T, error),
+	opts ...func(opt *query.CollectionsPaginateOptions[K]),
+) ([]T, *query.PageResponse, error) {
+	if pageReq == nil || !pageReq.Reverse || len(pageReq.Key) == 0 {
+		return query.CollectionPaginate(ctx, coll, pageReq, transformFunc, opts...)
+	}
+
+	if pageReq.Offset > 0 {
+		return nil, nil, errors.New(
+			"invalid request, either offset or key is expected, got both",
+		)
+	}
+
+	limit := pageReq.Limit
+	if limit == 0 {
+		limit = query.DefaultLimit
+	}
+
+	opt := new(query.CollectionsPaginateOptions[K])
+	for _, o := range opts {
+		o(opt)
+	}
+
+	var prefix []byte
+	if opt.Prefix != nil {
+		var err error
+		prefix, err = encodeCollectionKey[K, V](coll, *opt.Prefix)
+		if err != nil {
+			return nil, nil, err
+		}
+	}
+
+	// The exclusive upper bound is the smallest byte string greater than the requested key.
+	end := make([]byte, 0, len(prefix)+len(pageReq.Key)+1)
+	end = append(end, prefix...)
+	end = append(end, pageReq.Key...)
+	end = append(end, 0x00)
+
+	iterator, err := coll.IterateRaw(ctx, prefix, end, collections.OrderDescending)
+	if err != nil {
+		if errors.Is(err, collections.ErrInvalidIterator) {
+			return nil, new(query.PageResponse), nil
+		}
+
+		return nil, nil, err
+	}
+	defer iterator.Close()
+
+	var (
+		results []T
+		nextKey []byte
+		count   uint64
+	)
+	for ; iterator.Valid(); iterator.Next() {
+		if count == limit {
+			key, err := iterator.Key()
+			if err != nil {
+				return nil, nil, err
+			}
+			nextKey, err = encodeCollectionKey[K, V](coll, key)
+			if err != nil {
+				return nil, nil, err
+			}
+
+			break
+		}
+
+		kv, err := iterator.KeyValue()
+		if err != nil {
+			return nil, nil, err
+		}
+		transformed, err := transformFunc(kv.Key, kv.Value)
+		if err != nil {
+			return nil, nil, err
+		}
+		results = append(results, transformed)
+		count++
+	}
+
+	if len(nextKey) != 0 && prefix != nil {
+		nextKey = nextKey[len(prefix):]
+	}
+
+	return results, &query.PageResponse{NextKey: nextKey}, nil
+}
+
+func encodeCollectionKey[K, V any, C query.Collection[K, V]](coll C, key K) ([]byte, error) {
+	buffer := make([]byte, coll.KeyCodec().Size(key))
+	_, err := coll.KeyCodec().Encode(buffer, key)
+
+	return buffer, err
+}
